@@ -82,6 +82,21 @@ pub fn gen(rng: &mut Rng, size: usize) -> Value {
     // the damaged text stands in every kind of document: a minimal one, a random flat / Hermes document (any key
     // order, tables of any length), or a section of a (nested) index, with or without a url next to the map
     let nf = 1 + rng.below(2);
+    if rng.chance(1, 5) {
+        // a well-formed text written for MORE sources / names than the document declares, the other tables
+        // (sourcesContent, ignoreList) sized independently: any index at or past the declared length must be refused
+        let h = rng.chance(1, 4);
+        let mut d = crate::c02::gen_flat_doc(rng, size, h);
+        let nsrc = d["sources"][0].as_array().map_or(0, |a| a.len()) as u64;
+        let nnm = d["names"][0].as_array().map_or(0, |a| a.len()) as u64;
+        let (xs, xn) = (rng.below(3), if rng.chance(1, 2) { 0 } else { rng.below(3) });
+        let nseg = 1 + rng.below((size * 6) as u64) as usize;
+        d["mappings"] = json!([gen_mappings(rng, nseg, nsrc + xs, nnm + xn, false)]);
+        d["contents"] = json!([(0..nsrc + rng.below(4)).map(|_| if rng.chance(1, 3) { json!([]) } else { json!(["c"]) }).collect::<Vec<_>>()]);
+        d.as_object_mut().unwrap().remove("range");
+        if h { d["xfs"] = json!([(0..nsrc).map(|_| json!([])).collect::<Vec<_>>()]); }
+        return json!({"doc": d});
+    }
     if rng.chance(1, 2) {
         let mut d = if rng.chance(1, 2) { crate::c02::gen_index_doc(rng, size, 2) } else { let h = rng.chance(1, 4); crate::c02::gen_flat_doc(rng, size, h) };
         let n = count_texts(&d);
